@@ -3031,4 +3031,91 @@ theorem run_total (cmp : Tree → Tree → Ordering) (g : Granularity) (gt : Gro
   simp only [hm]
   exact ⟨_, rfl⟩
 
+/-! ### visibility -/
+
+theorem append_colon_inj : ∀ (a b x y : List Char), a.contains ':' = false → b.contains ':' = false →
+    a ++ ':' :: x = b ++ ':' :: y → a = b ∧ x = y
+  | [], [], x, y, _, _, h => by simpa using h
+  | [], c :: b, x, y, _, hb, h => by
+    simp only [List.nil_append, List.cons_append, List.cons.injEq] at h
+    simp [← h.1] at hb
+  | c :: a, [], x, y, ha, _, h => by
+    simp only [List.nil_append, List.cons_append, List.cons.injEq] at h
+    simp [h.1] at ha
+  | c :: a, d :: b, x, y, ha, hb, h => by
+    simp only [List.cons_append, List.cons.injEq] at h
+    simp only [List.contains_cons, Bool.or_eq_false_iff] at ha hb
+    obtain ⟨h1, h2⟩ := append_colon_inj a b x y ha.2 hb.2 h.2
+    exact ⟨by rw [h.1, h1], h2⟩
+
+theorem pathToString_cons_cons (n m : List Char) (r : List (List Char)) :
+    pathToString (n :: m :: r) = n ++ ':' :: ':' :: pathToString (m :: r) := rfl
+
+theorem mem_of_eq_append_colon {n a x : List Char} (h : n = a ++ ':' :: x) : n.contains ':' = true := by
+  subst h; simp
+
+/-- `path_to_string` is injective on non-empty paths whose names contain no colon. -/
+theorem pathToString_inj : ∀ (p q : List (List Char)), p ≠ [] → q ≠ [] →
+    p.all (fun n => !n.contains ':') = true → q.all (fun n => !n.contains ':') = true →
+    pathToString p = pathToString q → p = q
+  | [], _, hp, _, _, _, _ => absurd rfl hp
+  | _, [], _, hq, _, _, _ => absurd rfl hq
+  | [n], [m], _, _, _, _, h => by simpa [pathToString] using h
+  | [n], m :: m' :: r, _, _, hp, _, h => by
+    simp only [pathToString] at h
+    have := mem_of_eq_append_colon h
+    simp only [List.all_cons, List.all_nil, Bool.and_true, Bool.not_eq_true'] at hp
+    rw [hp] at this; exact absurd this (by simp)
+  | n :: n' :: r, [m], _, _, _, hq, h => by
+    simp only [pathToString] at h
+    have := mem_of_eq_append_colon h.symm
+    simp only [List.all_cons, List.all_nil, Bool.and_true, Bool.not_eq_true'] at hq
+    rw [hq] at this; exact absurd this (by simp)
+  | n :: n' :: r, m :: m' :: r', _, _, hp, hq, h => by
+    rw [pathToString_cons_cons, pathToString_cons_cons] at h
+    have hp' : (n' :: r).all (fun n => !n.contains ':') = true := by
+      simp only [List.all_cons, Bool.and_eq_true] at hp ⊢; exact hp.2
+    have hq' : (m' :: r').all (fun n => !n.contains ':') = true := by
+      simp only [List.all_cons, Bool.and_eq_true] at hq ⊢; exact hq.2
+    simp only [List.all_cons, Bool.and_eq_true, Bool.not_eq_true'] at hp hq
+    obtain ⟨h1, h2⟩ := append_colon_inj n m _ _ hp.1 hq.1 h
+    have h3 : pathToString (n' :: r) = pathToString (m' :: r') := by
+      simpa using h2
+    have := pathToString_inj (n' :: r) (m' :: r') (by simp) (by simp) hp' hq' h3
+    rw [h1, this]
+
+theorem visKey_nil_iff (v : Vis) : visKey v = [] ↔ v = .vinh := by
+  cases v <;> simp [visKey]
+
+/-- The literal comparison and equality of the keys `Item.vis` carries are the same thing. -/
+theorem isSameVisibility_iff_key (a b : Vis) : isSameVisibility a b = true ↔ visKey a = visKey b := by
+  cases a <;> cases b <;> simp [isSameVisibility, visKey]
+
+theorem sameVisibility_eq_sameVis (a b : Option Vis) :
+    sameVisibility a b = sameVis (a.map visKey) (b.map visKey) := by
+  cases a with
+  | none =>
+    cases b with
+    | none => rfl
+    | some b => cases b <;> simp [sameVisibility, sameVis, visKey]
+  | some a =>
+    cases b with
+    | none => cases a <;> simp [sameVisibility, sameVis, visKey]
+    | some b =>
+      have := isSameVisibility_iff_key a b
+      cases h : isSameVisibility a b
+      · have hne : ¬ visKey a = visKey b := by rw [← this]; simp [h]
+        cases a <;> cases b <;> simp_all [sameVisibility, sameVis]
+      · have he := this.1 h
+        cases a <;> cases b <;> simp_all [sameVisibility, sameVis]
+
+theorem isSameVisibility_iff_den (a b : Vis) (ha : visWF a = true) (hb : visWF b = true) :
+    isSameVisibility a b = true ↔ visDen a = visDen b := by
+  cases a <;> cases b <;> simp [isSameVisibility, visDen]
+  rename_i p _ q _
+  simp only [visWF, Bool.and_eq_true, Bool.not_eq_true', List.isEmpty_eq_false_iff] at ha hb
+  constructor
+  · exact pathToString_inj p q ha.1 hb.1 ha.2 hb.2
+  · intro h; rw [h]
+
 end RF.Lemmas.Imports
